@@ -864,7 +864,14 @@ class EdgeQLSourceGenerator(codegen.SourceGenerator):
             self.write('required ')
         self.visit(node.type)
         self.write('>')
+        # a cast binds tighter than any unary operator: '<T>(not x) <= y'
+        # is not '<T>not x <= y'
+        unary_operand = isinstance(node.expr, qlast.UnaryOp)
+        if unary_operand:
+            self.write('(')
         self.visit(node.expr)
+        if unary_operand:
+            self.write(')')
         if parenthesise:
             self.write(')')
 
